@@ -31,7 +31,7 @@ import re
 ID = "C10"
 FLAVOURS = ["tsan", "noexc", "plain"]      # TSan (exceptions on) | ASan+UBSan, -fno-exceptions -fno-rtti | no sanitizer, full speed
 HARNESS_SRCS = ["harness/C10.cpp"]
-PER_TIMEOUT = 60.0
+PER_TIMEOUT = 120.0                 # the runner's budget for a whole flavour is PER_TIMEOUT * (1 + 0.001 * scenarios): ~2300 forked TSan children take 3-4 min; a hung child is reported by the harness itself within DEADLINE
 DEADLINE = "6"                      # seconds a scenario's child may take before the harness reports :hang
 HARNESS_ARGS = {"tsan": (DEADLINE,), "noexc": (DEADLINE,), "plain": (DEADLINE,)}
 CRASH_IS_VIOLATION = True
@@ -51,8 +51,8 @@ RULE = ("(a) every release entry point (delete, delete[], free, realloc) x every
         "switch cycle are reallocated / released after it): saveAndDisable/restore once, nested 2-3 deep, interleaved nests, several "
         "cycles, turnOff then turnOnThreadSafe, cycles around and after these, and as negative controls turnOnDefault / turnOff / an "
         "open saveAndDisable (epochs in which nothing but the probe runs) followed by the way back -- 14 fixed histories x {before any "
-        "operation, in the middle of the scripts} x {0, 1, 3} workers, plus random multi-epoch scenarios (2-5 epochs, 1-6 threads, "
-        "misuses on the test thread); every epoch begins with a 15-call probe of all entry points by the test thread alone. "
+        "operation, in the middle of the scripts} x {0, 1, 3} workers (quick tier: two of the three), 6 control pairs x {0, 2} workers, "
+        "plus random multi-epoch scenarios (40 quick / 250 thorough: 2-5 epochs, 1-12 threads, misuses on the test thread); every epoch begins with a 15-call probe of all entry points by the test thread alone. "
         "Pre-emption injected at every lock/unlock (yield / short sleep by seed). non-trivial = at least two threads with operations, "
         "or a misuse")
 ASSUMPTIONS = ["switches of the overloads are flipped only while no other thread is inside or about to enter an entry point (between epochs; the eleven function pointers are plain statics), every restore closes a saveAndDisable, and the three direct switches are not used inside a saveAndDisable..restore bracket",
@@ -381,12 +381,12 @@ def random_safe_chunk(rng):
     return []
 
 
-def switch_family(rng):
+def switch_family(rng, tier):
     """(f), fixed part: every listed history x where it happens x how many workers"""
     out = []
     for hist in SAFE_HISTORIES:
         for where in ("first", "middle"):
-            for nw in (0, 1, 3):
+            for nw in ((0, 1, 3) if tier != "quick" else (0, 3) if where == "first" else (1, 3)):
                 ths = [Sim(rng, i == 0, 8) for i in range(1 + nw)]
                 if where == "middle":
                     for t in ths:
@@ -451,8 +451,8 @@ def switchy(rng, big):
 
 def generate(tier, rng):
     out = rest_family(tier, rng)            # first: next to the rests of corpus/C10/stall.scn, one concurrent batch in the harness
-    out += switch_family(rng)
-    for _ in range(60 if tier == "quick" else 400):
+    out += switch_family(rng, tier)
+    for _ in range(40 if tier == "quick" else 250):
         out.append(switchy(rng, tier != "quick" and rng.random() < 0.4))
     out += exhaustive(rng)
     out += refused_family(rng)
@@ -781,17 +781,32 @@ LEVEL_TEXT = ("Machine-checked (Coq) theorems over an executable interleaving mo
               "long the holder rests while the others are given turns (the model's Lock never gives up: a blocked thread's step is a "
               "no-op), a realloc that is turned down (size refused by the overflow guard, or the underlying realloc failing: record "
               "taken out and put back) leaves the outstanding records, their numbers, the counter and the lock as they were; and, over the wiring table regenerated from the source on every run, that all eleven "
-              "entry points take the lock first and perform the matching detector action.  The pre-repair reporter (D17) and a wiring "
+              "entry points take the lock first and perform the matching detector action.  The history of the overload switches (round 4): "
+              "a run is a sequence of epochs of concurrent scripts separated by turnOff / turnOnDefault / turnOnThreadSafe / saveAndDisable / "
+              "restore on the test thread; the switch machine of the source (eleven pointers, eleven saved_ pointers, save_counter) is "
+              "proved to leave, after every well-bracketed history, the wiring that the meaning of the switches names (inside a "
+              "save..restore bracket none, outside the one of the last direct switch) -- the fully locked table whenever the meaning says "
+              "thread-safe, however many cycles, nested or not --; the invariants of one epoch carry over the re-arming of the threads, so "
+              "mutual exclusion, atomicity, occupancy <= 1, completion hold in every state of every epoch, every call of an entry point "
+              "(probe, script operation, the output's new[]/delete[]) takes the lock, and the completed multi-epoch run satisfies the "
+              "oracle for all schedules; save/restore that remember only 'overloads were on' are refuted.  The pre-repair reporter (D17) and a wiring "
               "with one unlocked wrapper are refuted by computed witnesses.  Tied to the code by real pthreads (1-16) running the same "
               "scripts through new/new[]/malloc/realloc/free/delete under ThreadSanitizer, ASan+UBSan without exceptions, and "
               "unsanitized, with pre-emption injected at lock/unlock, a real test registry and the real reporter, compared with the "
               "extracted model and judged by the extracted model-free spec.  Runs in which the holder of the lock sleeps 1.05-2.6 s at "
               "the PlatformSpecificMalloc/Realloc/Free seam inside the locked region while the other threads ask for the lock: the "
               "largest number of threads between the return of Lock and the call of Unlock is counted by wrappers around the platform "
-              "function pointers and must be one; realloc requests that cannot be met (five sizes / a failing seam) in the scripts.")
+              "function pointers and must be one; realloc requests that cannot be met (five sizes / a failing seam) in the scripts.  "
+              "Per epoch the harness counts the calls of entry points it makes and, per thread at the PlatformSpecificMutexLock seam, "
+              "whether each call acquired the lock exactly once; the oracle demands calls = locked calls in every epoch in which the "
+              "switches so far mean thread-safe.")
 LEVEL_NOTE = ("PARTIAL by nature: the absence of data races and the behaviour of pthread mutexes are exhibited only by the instrumented "
               "runs (TSan silent, occupancy counter of the locked region = 1, deadline / no-progress detector), not by the theorems; a platform Lock that gives up after a time T is exhibited only by rests longer than T (the runs rest up to 2.6 s); the model carries the logic (why the lock "
               "discipline makes every schedule equivalent to a serial one).  Misuse is confined to the test thread (assumption).  "
+              "Switches are flipped only between epochs (all other threads parked at a gate): a switch racing with a call is outside the model "
+              "(the eleven pointers are plain statics); histories with a restore that closes nothing or a direct switch inside a "
+              "save..restore bracket are excluded; in epochs in which the switches do not mean thread-safe only the 15-call probe runs "
+              "(its allocation numbers are measured and subtracted by the harness); the initial value of the saved_ pointers is written in the model, not regenerated.  "
               "Trusted: Coq kernel, extraction, tools/gen/C10.py (wiring extraction by anchored patterns), harness, generator, the "
               "schedule derived from the seed in ocaml/c10_driver.ml.  Modelled not verified: the C++ itself; longjmp by its contract; "
               "the hash table as a keyed list; the output's allocation while printing as one step that needs the lock free.")
